@@ -38,6 +38,10 @@ def make_case(ctype):
         spec["B"] = draw(comps)
         spec["absolute"] = draw(st.sampled_from([True, True, False]))
         spec["as_str"] = draw(st.booleans())
+        # how the directory is handed over: str, pathlib.Path, or a bare os.PathLike (an object with __fspath__, like os.DirEntry)
+        spec["dir_repr"] = draw(st.sampled_from(["default", "default", "fspath"]))
+        # a directory of depth zero: the file-system root (absolute paths) or the current directory (relative paths)
+        spec["depth0"] = draw(st.integers(0, 7)) == 0
         spec["outside"] = draw(st.sampled_from(["none", "none", "none", "sibling_prefix", "parent", "unrelated", "relative"]))
         spec["mode"] = draw(st.sampled_from(["relocate", "relocate", "passthrough"]))
         # the audio directory exists on disk and the recordings sit behind a symbolic link inside it (to a sibling folder inside
@@ -55,6 +59,9 @@ def check(spec, ctx):
     base = d / "c18" if spec["absolute"] else Path("c18rel")
     A = base.joinpath(*spec["A"])
     B = base.joinpath("other", *spec["B"])
+    if spec.get("depth0") and spec["mode"] == "relocate" and spec["outside"] == "none" and not spec.get("symlink"):
+        A = Path("/") if spec["absolute"] else Path(".")
+        ctx.label("audio_dir_depth0")
     nrec = len(spec["recordings"])
     rels = [r["path"] for r in spec["recordings"]]
     nested = any("/" in r for r in rels)
@@ -77,7 +84,17 @@ def check(spec, ctx):
                 ctx.fail(f"{spec['ctype']}: stored path {stored[u]!r} differs from the recording's path {str(p)!r} (no audio dir)", spec, stored[u], str(p), kind="passthrough")
         return
 
-    arg = (lambda p: str(p)) if spec["as_str"] else (lambda p: p)
+    class _FsPath:
+        def __init__(self, p):
+            self._p = str(p)
+
+        def __fspath__(self):
+            return self._p
+
+    if spec.get("dir_repr") == "fspath":
+        arg = _FsPath
+    else:
+        arg = (lambda p: str(p)) if spec["as_str"] else (lambda p: p)
 
     # ---- outside recording: save must fail and write nothing -----------------------------------
     if spec["outside"] != "none":
